@@ -83,6 +83,10 @@ class WithAttrMethod(AttrMethodDescriptor):
         if not _if:
             return self
 
+        # (The helper may belong to a parent class whose subclass re-defaults the
+        # attribute or overrides its preparer; the instance's own class decides,
+        # as it does for `obj.<attr> = value`.)
+        attr_spec = self.__spec_class__.attrs.get(attr_spec.name, attr_spec)
         return mutate_attr(
             obj=self,
             attr=attr_spec.name,
